@@ -127,7 +127,8 @@ def notifyUp : Nat → World → Nat → World
         (w.dev x).up.foldl (fun w u => spaceAvail f w u) w
       else w
     | .source | .handler | .processor | .batcher | .sink =>
-      let w := w.setWaiting x true false
+      -- the idle clock starts only when both slots are free (fix of finding F13)
+      let w := if d.part.isNone && d.output.isNone then w.setWaiting x true false else w
       (w.dev x).up.foldl (fun w u => spaceAvail f w u) w
     | .ginput =>
       ((w.groups.getD d.group default).paths).foldl (fun w gp => notifyUp f w gp) w
